@@ -36,7 +36,7 @@ def build(rnd, tier, flags):
                          kwcase=r.chance(30), names=gen.ALL_NAMES, excl=set(flags))
     flay = layout.free_layout(flat, rnd, lo)
     case = {"free": gen.canonical_source(flat), "fixed": lay.text, "free_laid": flay.text, "std": std, "meta": meta,
-            "groups": progs.groups_of(flat, lay, fixed=True)}
+            "groups": progs.groups_of(flat, lay, fixed=True), "via_file": r.chance(30)}
     return case, progs.excluded_counts(g, lay)
 
 
@@ -47,7 +47,10 @@ def evaluate(case):
                       or "label_and_cname" in feats)
     labels = ["fixed:" + f for f in feats] + ["wrap=%s" % meta.get("wrap")]
     std = case["std"]
-    o1 = guarded_parse(case["free"], std=std)
+    vf_ = {"via_file": True} if case.get("via_file") else {}
+    if vf_:
+        labels.append("file-reader")       # scratch files are re-used with sources of either form
+    o1 = guarded_parse(case["free"], std=std, **vf_)
     if o1.kind != "tree":
         return Result(True, None, False, labels, precondition_failed=True)
     if case.get("free_laid"):
@@ -57,7 +60,7 @@ def evaluate(case):
     mode = FortranStringReader(case["fixed"]).format.mode
     if mode != "fix":
         return Result(False, "fixed-detected-as:%s" % mode, nontrivial, labels, {"first_lines": case["fixed"][:400]})
-    o2 = guarded_parse(case["fixed"], std=std)
+    o2 = guarded_parse(case["fixed"], std=std, **vf_)
     if o2.kind != "tree":
         kinds, chunk = progs.isolate_group(case, lambda t: guarded_parse(t, std=std).kind != "tree", key="fixed")
         return Result(False, "reject:%s:%s" % (o2.kind, kinds), nontrivial, labels, {"error": o2.text, "culprit": chunk})
